@@ -60,6 +60,7 @@ class Tree:
         self.max_depth = 0
         self.capped = False
         self.masks_seen = set()
+        self.crashes = []  # (history incl. the crashing action, exception) of mask-admitted steps that raised
 
 
 def explore(env, td0, max_depth=64, max_states=400_000, on_level=None, keep_nodes=True) -> Tree:
@@ -109,7 +110,23 @@ def explore(env, td0, max_depth=64, max_states=400_000, on_level=None, keep_node
             tree.capped = True
             break
         nxt = states[torch.tensor(rows)]
-        states = step_batch(env, nxt, acts)
+        try:
+            states = step_batch(env, nxt, acts)
+        except Exception:  # noqa: BLE001
+            # a mask-admitted step raised: find the offending rows one by one, keep exploring the others
+            good, parts = [], []
+            for q in range(len(acts)):
+                try:
+                    parts.append(step_batch(env, nxt[q : q + 1], [acts[q]]))
+                    good.append(q)
+                except Exception as e:  # noqa: BLE001
+                    if len(tree.crashes) < 20:
+                        tree.crashes.append((new_hists[q], e))
+            if not good:
+                break
+            states = torch.cat(parts, 0)
+            acts = [acts[q] for q in good]
+            new_hists = [new_hists[q] for q in good]
         tree.transitions += len(acts)
         hists = new_hists
         depth += 1
